@@ -340,12 +340,17 @@ def e2e(spec):
                                 if len(g) > 1 and any(g):
                                     bad.append({'sig': 'bus-net|identifier-of-a-wire-of-a-multi-wire-cable-collides', 'scope': where, 'id': k[:80]})
         # (c) the file must be readable again and show the original names
+        cable_names = [c for ls in spec['libs'] for ds in ls['defs'] for c, _ in ds['cables']]
         try:
             n2 = sdn.parse(path)
         except Exception as e:  # noqa
             n2 = None
             if not bad:
-                bad.append({'sig': 'reparse-fails|unexplained', 'text': '%s: %s' % (type(e).__name__, str(e)[:200])})
+                if isinstance(e, IndexError) and any(c.endswith('[') for c in cable_names):
+                    sig = 'reparse-fails|IndexError-and-a-cable-name-ends-with-an-open-bracket'
+                else:
+                    sig = 'reparse-fails|unexplained'
+                bad.append({'sig': sig, 'text': '%s: %s' % (type(e).__name__, str(e)[:200])})
             else:
                 stats['reparse_failed_after_reported_failure'] = 1
         if n2 is not None:
@@ -353,7 +358,13 @@ def e2e(spec):
             if after != before:
                 only_bus = _differs_only_in_bus_cables(before, after, spec)
                 if not bad and not only_bus:
-                    bad.append({'sig': 'names-not-restored|unexplained', 'before': repr(before)[:300], 'after': repr(after)[:300]})
+                    where = _diff_places(before, after)
+                    if where and all(w[2] == 'cables' for w in where) and \
+                            all(any(_looks_like_bus_bit(c) for c in before[w[0]][w[1]][1]) for w in where):
+                        sig = 'names-not-restored|a-one-wire-cable-named-like-a-bus-bit-x[digits]-is-read-as-bit-of-cable-x'
+                    else:
+                        sig = 'names-not-restored|unexplained'
+                    bad.append({'sig': sig, 'where': repr(where)[:300]})
                 elif only_bus:
                     stats['bus_cable_names_differ'] = 1
             if n2.name != nl.name and not bad:
@@ -385,3 +396,26 @@ def _differs_only_in_bus_cables(before, after, spec):
             elif b != a:
                 return False
     return True
+
+
+def _looks_like_bus_bit(name):
+    if not name.endswith(']') or '[' not in name:
+        return False
+    inner = name[name.rfind('[') + 1:-1]
+    return inner != '' and all(ch in DIGITS for ch in inner)
+
+
+def _diff_places(before, after):
+    """[(library, definition, 'ports'|'cables'|'instances')] where the name lists differ; [] when the
+    library / definition sets themselves differ"""
+    if set(before) != set(after):
+        return []
+    out = []
+    for ln in before:
+        if set(before[ln]) != set(after[ln]):
+            return []
+        for dn in before[ln]:
+            for k, what in enumerate(('ports', 'cables', 'instances')):
+                if before[ln][dn][k] != after[ln][dn][k]:
+                    out.append((ln, dn, what))
+    return out
